@@ -7,7 +7,7 @@ from .. import sym as S
 from ..engine import HOLDS, UNDECIDED, VIOLATED, Check
 from ..loader import AnalysisError, parent
 from ..recon import _own_nodes
-from ..rulelib import (appends_in, calls_named, carried_with_entry, classify_effect, conds_sym, field_map, func_outcomes,
+from ..rulelib import (appended_in_round, simulate_loop, appends_in, calls_named, carried_with_entry, classify_effect, conds_sym, field_map, func_outcomes,
                        loop_carried, loops_of, reach_table, spec_expr)
 
 LEVEL = "other"
@@ -423,55 +423,191 @@ def locations(chk: Check):
     chk.decide(bool(rel_ret), "K-PATH", "parallels:relative-path", ctx.func, "a relative image path is resolved against the .hdd directory")
 
 
+def _chain_by_evaluation(chk: Check, cctx):
+    """get_snapshot_chain decided on model snapshot trees: find_shot(g) is interpreted as "the record of snapshot g" (fields
+    guid, parent), the loop's transition terms are evaluated round by round and the values appended to the returned list are
+    collected.  Specified: [g, parent(g), parent(parent(g)), ...] down to the snapshot whose parent is the null GUID."""
+    import uuid as _uuid
+    R = chk.R
+    rule = ("K-PROV", "parallels:chain-child-to-base")
+    outs = func_outcomes(chk, cctx)
+    rets = [o for o in outs if o[0] == "return"]
+    loops = loops_of(cctx)
+    if len(rets) != 1 or len(loops) != 1:
+        chk.undecided(*rule, cctx.func, "not one loop and one return")
+        return
+    L = rets[0][3]
+    if L[0] != "list":
+        chk.undecided(*rule, cctx.func, f"the returned value is not a list built in the function: {S.show(L)[:120]}")
+        return
+    loop = loops[0]
+    G = ("p", cctx.qual, 1)
+    U = lambda k: _uuid.UUID(int=k)  # noqa: E731
+    trees = [({1: 0}, 1), ({1: 2, 2: 0}, 1), ({1: 2, 2: 3, 3: 0}, 1), ({1: 2, 2: 3, 3: 0}, 2), ({5: 4, 4: 3, 3: 2, 2: 1, 1: 0}, 5),
+             ({1: 2, 2: 3, 3: 0, 7: 2}, 7)]
+    bad = []
+    for parents, start in trees:
+        def find_shot(*args, _p=parents):
+            g = args[-1]
+            k = g.int if isinstance(g, _uuid.UUID) else None
+            if k not in _p:
+                raise S.EvalError("unknown snapshot")
+            return S.Rec(f"shot{k}", guid=U(k), parent=U(_p[k]))
+        models = {".find_shot": find_shot}
+        want = []
+        k = start
+        while k:
+            want.append(U(k))
+            k = parents[k]
+        base = {G: U(start)}
+        v0 = S.Valuation(1, override=base)
+        v0.call_models = models
+        try:
+            got = [S.ev(x, v0) for x in L[1]]
+        except S.EvalError as e:
+            chk.undecided(*rule, cctx.func, f"cannot evaluate the initial chain: {e}")
+            return
+        # appends in front of the loop
+        pre = [n for n in _own_nodes(cctx.func) if isinstance(n, ast.Expr) and isinstance(n.value, ast.Call) and isinstance(n.value.func, ast.Attribute)
+               and n.value.func.attr == "append" and not any(n is x for x in ast.walk(loop)) and n.lineno < loop.lineno]
+        for n in pre:
+            if R.expr(cctx, n.value.func.value, cctx.cfg.node_of.get(n)) == L:
+                got.append(S.ev(R.expr(cctx, n.value.args[0], cctx.cfg.node_of.get(n)), v0))
+        carried = loop_carried(chk, cctx, loop)
+        state_ok = True
+        # one round at a time: the list's current contents are what `x in chain` sees
+        inputs_done = 0
+        rounds_all = []
+        cur = list(got)
+        # re-run the simulation with a growing prefix so that the override of the list term follows the appends
+        n_rounds = len(parents) + 2
+        seq = []
+        for _ in range(n_rounds):
+            seq.append({L: tuple(cur)})
+            rounds = simulate_loop(chk, cctx, loop, carried, seq, base=base, call_models=models)
+            if len(rounds) < len(seq):
+                break
+            last = rounds[-1]
+            if last[2][0] in ("fork", "limit"):
+                state_ok = False
+                break
+            for call, v in appended_in_round(chk, cctx, last):
+                if R.expr(cctx, call.func.value, cctx.cfg.node_for(call)) == L:
+                    cur.append(v)
+            if last[2][0] not in ("back", "continue") and not (last[2][0] == "left" and last[2][1] is cctx.cfg.node_of[loop]):
+                break
+        if not state_ok:
+            chk.undecided(*rule, loop, "a test of the walk could not be evaluated on the model snapshot tree")
+            return
+        if cur != want:
+            bad.append(f"snapshots {parents} (child: parent), chain of {start}: {[x.int for x in cur if isinstance(x, _uuid.UUID)]}, specified {[x.int for x in want]}")
+    chk.decide(not bad, *rule, cctx.func, f"the chain lists the requested snapshot first and then each parent down to the base "
+               f"({len(trees)} model snapshot trees evaluated)" if not bad else "; ".join(bad[:2]))
+
+
+def _stack_by_evaluation(chk: Check, octx, l, it):
+    """The per-storage layer loop of HDD.open decided on model layer lists: find_image(g) is interpreted as the image record of
+    layer g (type, file), HDS(fh, parent) as a record of its arguments.  Specified: starting from nothing, a Compressed image
+    becomes HDS(its file, parent = the stream so far), a Plain image becomes its file; any other type raises."""
+    R = chk.R
+    cfg = octx.cfg
+    car = loop_carried(chk, octx, l)
+    rule_p = ("K-PROV", "parallels:parent-is-previous-stream")
+    rule_s = ("K-PROV", "parallels:layer-becomes-stream")
+    # the stream of a storage: second component of what is recorded per storage behind the layer loop
+    outer = [x for x in octx.loops if x is not l and any(y is l for y in ast.walk(x))]
+    recs = [n for n in ast.walk(outer[0] if outer else octx.func) if isinstance(n, ast.Call) and isinstance(n.func, ast.Attribute) and n.func.attr == "append"
+            and n.args and not any(n is y for y in ast.walk(l))]
+    sname = None
+    for a in recs:
+        tt = R.expr(octx, a.args[0], cfg.node_for(a))
+        if tt[0] == "tuple" and len(tt[1]) == 2:
+            for nme in car:
+                if R._name(octx, nme, cfg.node_for(a), {}, False, 0) == tt[1][1]:
+                    sname = nme
+    if sname is None:
+        chk.undecided(*rule_s, l, "cannot identify the per-storage stream recorded behind the layer loop")
+        return
+    names = {}
+    opens = []
+    for n in ast.walk(l):
+        if isinstance(n, ast.Call):
+            tt = R.expr(octx, n, cfg.node_for(n))
+            if tt[0] == "call":
+                for suffix in ("find_image", "_open_image", "HDS"):
+                    if tt[1].endswith(suffix):
+                        names[suffix] = tt[1]
+                        if suffix == "_open_image":
+                            opens.append((n, tt))
+    if set(names) != {"find_image", "_open_image", "HDS"} or len({tt for _, tt in opens}) != 1:
+        chk.undecided(*rule_s, l, f"the layer loop does not consist of find_image / _open_image / HDS calls: {sorted(names)}")
+        return
+    ITER = ("iter", it, None)
+    open_term = opens[0][1]
+
+    def hds(fh, parent=None, **kw):
+        return S.Rec(f"HDS({fh!r}, parent={parent!r})", fh=fh, parent=parent)
+
+    def open_image(*args):
+        return S.Rec(f"file[{S._key(args[-1])}]")
+
+    import itertools
+    bad_p, bad_s, und = [], [], None
+    nseq = 0
+    for n_layers in (1, 2, 3):
+        for types in itertools.product(("Compressed", "Plain"), repeat=n_layers):
+            nseq += 1
+
+            def find_image(*args, _t=types):
+                g = args[-1]
+                if not isinstance(g, int) or not 0 <= g < len(_t):
+                    raise S.EvalError("unknown layer")
+                return S.Rec(f"image{g}", type=_t[g], file=f"layer{g}.hds", guid=g)
+            models = {names["find_image"]: find_image, names["_open_image"]: open_image, names["HDS"]: hds}
+            rounds = simulate_loop(chk, octx, l, car, [{ITER: k} for k in range(n_layers)], call_models=models)
+            if len(rounds) != n_layers or any(r[2][0] in ("fork", "limit") for r in rounds):
+                und = f"layers {types}: the loop body could not be evaluated round by round"
+                break
+            want = None
+            first_parent_seen = rounds[0][0].get(sname)
+            for k, r in enumerate(rounds):
+                try:
+                    fh = S.ev(open_term, r.val)
+                except S.EvalError:
+                    fh = None
+                want = hds(fh, want) if types[k] == "Compressed" else fh
+            got = rounds.final.get(sname)
+            if first_parent_seen is not None:
+                bad_p.append(f"the stack of a storage starts from {first_parent_seen!r}, not from nothing")
+            elif S._key(got) != S._key(want):
+                (bad_p if "parent=" in repr(want) and repr(got).count("HDS") == repr(want).count("HDS") else bad_s).append(
+                    f"layers base-first {types}: stream {got!r}, specified {want!r}")
+        if und:
+            break
+    if und:
+        chk.undecided(*rule_s, l, und)
+        return
+    leaked = bool(bad_p) and "starts from" in bad_p[0]
+    chk.decide(not bad_p, *rule_p, l,
+               f"each expanding image is opened with parent = the stream of the layer below, the base with none ({nseq} model layer lists evaluated)"
+               if not bad_p else ("the layer stack of a storage does not start empty: the stream variable is not reset to None per storage, so the base "
+                                  "image of a later storage gets the previous storage's stream as its parent" if leaked else bad_p[0]))
+    chk.decide(not bad_s, *rule_s, l, "the layer just opened becomes the stream for the next layer (HDS for Compressed, the file for Plain)"
+               if not bad_s else bad_s[0])
+    # an image type other than Compressed / Plain is refused
+
+    def find_bogus(*args):
+        return S.Rec("image0", type="Sparse2", file="layer0.hds", guid=0)
+    rounds = simulate_loop(chk, octx, l, car, [{ITER: 0}], call_models={names["find_image"]: find_bogus, names["_open_image"]: open_image, names["HDS"]: hds})
+    chk.decide(bool(rounds) and rounds[0][2][0] == "raise", "K-DISPATCH", "parallels:unknown-image-type-refused", l,
+               "an image type other than Compressed / Plain raises instead of being stacked as something else", nontrivial=False)
+
+
 def parallels_chain(chk: Check):
     R = chk.R
     rel = "disk/hdd.py"
     cctx = chk.func(rel, "Descriptor.get_snapshot_chain")
-    outs = func_outcomes(chk, cctx)
-    # chain starts with the requested shot and appends parents (term-based: local names do not matter)
-    loop = loops_of(cctx)
-    dk = chk.prog.cls(rel, "Descriptor").key
-    G = ("p", cctx.qual, 1)
-    ok = bool(loop)
-    if ok:
-        car = loop_carried(chk, cctx, loop[0])
-        shots = [(n, i) for n, i in car.items() if i["phi"][0] == "phi" and i["phi"][3][0] == "call" and i["phi"][3][1] == ".find_shot" and i["phi"][3][2][-1] == G]
-        ok = len(shots) == 1
-        if ok:
-            SH = shots[0][1]["phi"]
-            # next shot = find_shot(current.parent)
-            ok = all(nx[0] == "call" and nx[1] == ".find_shot" and nx[2][-1] == ("attr", SH, "parent") for _, nx in shots[0][1]["next"])
-            # the walk continues exactly while the parent is not the null GUID (loop test, or `while True` with a return at the base)
-            import uuid as _uuid
-
-            NULLG = S.C(_uuid.UUID(int=0))
-            par = ("attr", SH, "parent")
-
-            def going(c, p):
-                return c[0] == "cmp" and {c[2], c[3]} == {par, NULLG} and ((c[1] == "!=" and p) or (c[1] == "==" and not p))
-
-            def at_base(c, p):
-                return c[0] == "cmp" and {c[2], c[3]} == {par, NULLG} and ((c[1] == "==" and p) or (c[1] == "!=" and not p))
-
-            nxt_stmts = [n for n in ast.walk(loop[0]) if isinstance(n, ast.Assign) and
-                         R.expr(cctx, n.value, cctx.cfg.node_of.get(n))[:2] == ("call", ".find_shot") and R.expr(cctx, n.value, cctx.cfg.node_of.get(n))[2][-1] == par]
-            ok = ok and bool(nxt_stmts) and all(any(going(c, p) for c, p in conds_sym(chk, cctx, n, kinds=("if", "prior", "while"))) for n in nxt_stmts)
-            test = R.expr(cctx, loop[0].test, cctx.cfg.node_of[loop[0]])
-            has_break = any(isinstance(n, ast.Break) for n in ast.walk(loop[0]))
-            rets_in = [n for n in ast.walk(loop[0]) if isinstance(n, ast.Return)]
-            if going(test, True):
-                ok = ok and not has_break and not rets_in
-            elif S.is_const(test) and test[1] is True:
-                ok = ok and not has_break and bool(rets_in) and all(any(at_base(c, p) for c, p in conds_sym(chk, cctx, n)) for n in rets_in)
-            else:
-                ok = False
-            # chain = [first.guid] and every visited shot's guid is appended
-            lists = [n for n in _own_nodes(cctx.func) if isinstance(n, ast.Assign) and isinstance(n.value, ast.List) and len(n.value.elts) == 1]
-            ok = ok and bool(lists) and R.expr(cctx, lists[0].value.elts[0], cctx.cfg.node_of[lists[0]]) == ("attr", SH[3], "guid")
-            apps = [n for n in ast.walk(loop[0]) if isinstance(n, ast.Call) and isinstance(n.func, ast.Attribute) and n.func.attr == "append"]
-            ok = ok and bool(apps) and all(R.expr(cctx, a.args[0])[0] == "attr" and R.expr(cctx, a.args[0])[2] == "guid" and
-                                          R.expr(cctx, a.args[0])[1][0] == "call" and R.expr(cctx, a.args[0])[1][1] == ".find_shot" for a in apps)
-    chk.decide(ok, "K-PROV", "parallels:chain-child-to-base", cctx.func, "the chain lists the requested snapshot first and then each parent down to the base")
+    _chain_by_evaluation(chk, cctx)
     octx = chk.func(rel, "HDD.open")
     hk = chk.prog.cls(rel, "HDD").key
     floops = [l for l in octx.loops if isinstance(l, ast.For)]
@@ -488,35 +624,27 @@ def parallels_chain(chk: Check):
         src_ = core[1] if core[0] == "sub" else (core[2][0] if core[0] == "call" and core[2] else core)
         if is_rev and S.contains(src_, lambda x: isinstance(x, tuple) and x and x[0] == "call" and x[1].endswith("get_snapshot_chain")):
             inner = (l, t)
-    chk.decide(inner is not None, "K-PROV", "parallels:stack-base-first", octx.func,
-               "images are stacked by walking the chain in reverse (base first, requested snapshot last)" if inner else
-               "the chain is not walked base-first: a child would become the parent of its own ancestor")
     if inner is None:
+        # positively top-first: the loop runs over the chain itself (possibly through identity wrappers)
+        direct = None
+        for l in floops:
+            t = R.expr(octx, l.iter, octx.cfg.node_of[l], binds={"__exclude_loop__": l})
+            core = t
+            while (core[0] == "sub" and core[2][0] == "slice" and core[2][1:] in ((S.C(None), S.C(None)), (S.C(None), S.C(None), S.C(1)))) or \
+                    (core[0] == "call" and core[1] in ("list", "tuple") and len(core[2]) == 1):
+                core = core[1] if core[0] == "sub" else core[2][0]
+            if core[0] == "call" and core[1].endswith("get_snapshot_chain"):
+                direct = l
+        if direct is not None:
+            chk.violated("K-PROV", "parallels:stack-base-first", direct,
+                         "the chain is not walked base-first: a child would become the parent of its own ancestor")
+        else:
+            chk.undecided("K-PROV", "parallels:stack-base-first", octx.func, "cannot tell in which order the snapshot chain is walked")
         return
+    chk.decide(True, "K-PROV", "parallels:stack-base-first", octx.func,
+               "images are stacked by walking the chain in reverse (base first, requested snapshot last)")
     l, t = inner
-    car = loop_carried(chk, octx, l)
-    sn, si = carried_with_entry(chk, car, S.C(None))
-    if si is None:
-        leaked = [n for n, i in car.items() if i["phi"][0] == "phi" and any(a[0] == "call" and (a[1].endswith("::HDS") or a[1].endswith("_open_image"))
-                                                                         for _, nx in i["next"] for a in S.alternatives(nx))]
-        chk.violated("K-PROV", "parallels:parent-is-previous-stream", l,
-                     "the layer stack of a storage does not start empty: the stream variable is not reset to None per storage, so the base image of a "
-                     "later storage gets the previous storage's stream as its parent" if leaked else
-                     "no stream variable is carried from one layer to the next")
-        return
-    STREAM = si["phi"]
-    hds = [n for n in ast.walk(l) if isinstance(n, ast.Call) and R.expr(octx, n)[0] == "call" and R.expr(octx, n)[1].endswith("::HDS")]
-    ok = False
-    if hds:
-        tt = R.expr(octx, hds[0])
-        parg = dict(tt[3]).get("parent") or (tt[2][1] if len(tt[2]) > 1 else None)
-        ok = parg == STREAM
-    chk.decide(ok, "K-PROV", "parallels:parent-is-previous-stream", hds[0] if hds else l, "each expanding image is opened with parent = the stream of the layer below")
-    # stream' is the HDS (compressed) or the plain file
-    for _, nx in si["next"]:
-        alts = S.alternatives(nx)
-        ok2 = any(a[0] == "call" and a[1].endswith("::HDS") for a in alts) and any(a[0] == "call" and a[1].endswith("_open_image") for a in alts)
-        chk.decide(ok2, "K-PROV", "parallels:layer-becomes-stream", l, "the layer just opened becomes the stream for the next layer", found=S.show(nx)[:200])
+    _stack_by_evaluation(chk, octx, l, t)
     # top guid
     g = None
     for n in _own_nodes(octx.func):
